@@ -3,6 +3,9 @@
    observed on pyipmi.helper / Ipmi.send_message driven by the same oracle. *)
 From Coq Require Import NArith ZArith List Bool.
 From PyIpmi Require Import Lib.Res Lib.Bytes Model.Helper.
+(* the history stage of harness/c13.py evaluates SDR reads step by step with the checkers of Corr/C11.v
+   (stateless model of chunk fetching in place, Model/SdrIO.v): make them part of this build *)
+From PyIpmi Require Lib.Prog Model.SdrIO Corr.C11.
 Import ListNotations.
 Open Scope N_scope.
 
